@@ -208,12 +208,28 @@ def rule_stack_effect(ctx, rep):
         env = _env_for(args)
         w = ctx.world
         for attr, key in (("stack_pop_size", "pops"), ("stack_push_size", "pushes")):
+            lenpart = f"[len={env['len']}]" if "len" in env else ""
             try:
                 got = w.getattr(obj, attr)
             except PyRaise as e:
                 got = f"RAISES {e.exc}"
+            except Unsupported as e:
+                if "symbolic" not in str(e):
+                    raise
+                # the count branches on the value of an immediate: decide it for a sweep of concrete immediates instead
+                for val in (0, 1, 2, 3, 255):
+                    cargs = [val if isinstance(a, Term) else a for a in args]
+                    cobj = w.new(cls, *cargs)
+                    cenv = {k: (val if isinstance(v, Term) else v) for k, v in env.items()}
+                    try:
+                        g = w.getattr(cobj, attr)
+                    except PyRaise as e2:
+                        g = f"RAISES {e2.exc}"
+                    wv = _eval_expr(op[key], cenv)
+                    rep.check(g == wv, rule, f"{_opkey(op)}.{key}{lenpart}", _where(ctx, cls), {"immediate": val, key: repr(g)}, {"immediate": val, key: repr(wv)},
+                              why="stack effect depends on the immediate's value in a way the AVM's does not")
+                continue
             want = _eval_expr(op[key], env)
-            lenpart = f"[len={env['len']}]" if "len" in env else ""
             rep.check(got == want, rule, f"{_opkey(op)}.{key}{lenpart}", _where(ctx, cls), repr(got), repr(want),
                       why=op.get("note", ""), sample={"opcode": _opkey(op), "class": cls.name, key: repr(got)})
     # tealer-only classes must not disturb the emulated stack
